@@ -111,6 +111,39 @@ def step_rule(chk, lib, fn, s, classes_with_end):
     return n
 
 
+_MACRO_SEEN = {}
+
+
+def macro_rule(chk, lib, fn, s):
+    """R-CHK.macro: the bound a size check establishes is `offset + size <= (size_t)(end - begin)`: it means what the
+    rules above take it to mean only if the same check also establishes begin <= end (a view located from a corrupted
+    size of its predecessor starts behind `end`, and the unsigned difference is huge).  Every SBEPP_SIZE_CHECK
+    assertion must therefore carry the conjunct begin - end <= 0 for its own begin / end."""
+    for p in s.paths:
+        for e in p.events:
+            if e[0] != "assert" or "SBEPP_SIZE_CHECK" not in (e[3] if len(e) > 3 else ()):
+                continue
+            cs = conjuncts(e[1])
+            ends = [a for op, f in cs if op in ("<=", "<") for a in end_syms(f)]
+            if not ends:
+                continue
+            E = Lin.atom(ends[0])
+            bounds = [f for op, f in cs if op in ("<=", "<") and end_syms(f)]
+            # the plain ordering conjunct: X - end <= 0 with X one of the operands' begin (a form with no other offset)
+            nes = [f for op, f in cs if op == "!="]
+            ok_ = any(any(f == b - E for b in nes) for f in bounds) if nes else False
+            key = "size-check-orders-view"
+            if ok_:
+                if not _MACRO_SEEN.get(id(chk)):
+                    _MACRO_SEEN[id(chk)] = True
+                    chk.ok("R-CHK.macro", key, {"example": show(e[1])[:160]}, nontrivial=True)
+            else:
+                chk.violation("R-CHK.macro", key, where(fn),
+                              "a size check in %s asserts %s without `begin <= end`: for a view that starts behind the end of "
+                              "the buffer `(size_t)(end - begin)` is huge and the check passes" % (fn["qn"][:140], show(e[1])[:200]))
+            return
+
+
 def ref_rule(chk, lib, fn, s):
     """R-CHK.ref: an operation that hands out a reference to an element of the buffer (operator[], front, back, *it on
     arrays) lets the caller read or write those bytes: [addr, addr + sizeof) of the returned lvalue must be covered by
@@ -178,6 +211,7 @@ def check(chk, lib, gen_root, per_shape=2, max_paths=200, skip_visit=True):
                 n_skip += 1
                 continue
             n_fn += 1
+            macro_rule(chk, lib, fn, s)
             n_step += step_rule(chk, lib, fn, s, classes_with_end)
             n_acc += ref_rule(chk, lib, fn, s)
             af = arg_facts(fn)
